@@ -1,5 +1,6 @@
 import Srsim.Num
 import Srsim.Model.Gcs.Parse
+import Srsim.Generated.Enums
 /-
 Model of the gcs evaluator (`pkg/logic/gcs/eval`: eval.go, expr.go, stmt.go, op.go, obj.go,
 sysfunc.go, action.go) over the trees of the parser model.
@@ -8,7 +9,10 @@ sysfunc.go, action.go) over the trees of the parser model.
   integer arithmetic on two integers, otherwise floating arithmetic on the promoted operands).
 * Environments are frames in a store (callbacks capture a frame id); maps live in a heap
   (`sort` works in place, as on the Go pointer type).
-* `rand` draws from an explicit stream; engine-state builtins are not part of this model.
+* `rand` draws from an explicit stream.
+* The condition builtins (conditions.go) read an explicit `World`: what the engine getters they call
+  would answer (units with class, life, energy, HP ratio, toughness, shields, modifiers, status
+  counts, weaknesses, skill availability, element, neighbours; skill points).
 * Fuel bounds evaluation; errors are values (`Res.err`), there is no crash outcome to reach.
 -/
 namespace Gcs.Eval
@@ -41,7 +45,40 @@ structure CB (α : Type) where
   env : Nat
   body : List Node
 
+/-- what the engine tells the condition builtins about one unit -/
+structure WUnit (α : Type) where
+  id : Int
+  cls : Nat                      -- 0 character, 1 enemy, 2 neutral
+  alive : Bool
+  key : List Nat                 -- character key (the name a script can use for the id)
+  energy : α
+  maxEnergy : α
+  hp : α
+  stance : α
+  maxStance : α
+  shielded : Bool
+  shields : List (List Nat)
+  mods : List (List Nat)
+  status : List (Int × Int)      -- status type ↦ number of modifiers of that type
+  weak : List Int
+  skill : Nat                    -- 0 not usable, 1 usable, 2 the engine reports an error
+  elem : Int
+  adj : List Int
+deriving Inhabited
+
+structure World (α : Type) where
+  sp : Int := 0
+  units : List (WUnit α) := []
+deriving Inhabited
+
+def World.unit? {α} (w : World α) (t : Int) : Option (WUnit α) := w.units.find? (·.id == t)
+def World.isValid {α} (w : World α) (t : Int) : Bool := (w.unit? t).isSome
+def World.isChar {α} (w : World α) (t : Int) : Bool := match w.unit? t with | some u => u.cls == 0 | none => false
+def World.isEnemy {α} (w : World α) (t : Int) : Bool := match w.unit? t with | some u => u.cls == 1 | none => false
+def World.ofClass {α} (w : World α) (c : Nat) : List Int := (w.units.filter (·.cls == c)).map (·.id)
+
 structure St (α : Type) where
+  world : World α := {}
   frames : Array (Frame α) := #[]
   maps : Array (List (Val α) × List (List Nat × Val α)) := #[]
   printed : List (Val α) := []            -- newest first
@@ -174,6 +211,20 @@ def builtins : List String :=
   ["print", "type", "rand", "randnorm", "sort", "first", "any", "len", "register_skill_cb", "register_ult_cb",
    "set_default_action", "attack", "skill", "ult", "ult_attack", "ult_skill"]
 
+/-- the condition builtins of conditions.go with the argument types `validateArguments` demands
+(1 number, 2 string) -/
+def condBuiltins : List (String × List Nat) :=
+  [("has_modifier", [1, 2]), ("modifier_count", [1, 1]), ("ult_ready", [1]), ("skill_points", []), ("energy", [1]),
+   ("max_energy", [1]), ("hp_ratio", [1]), ("weakness_broken", [1]), ("has_weakness", [1, 1]), ("stance", [1]),
+   ("max_stance", [1]), ("has_shield", [1, 2]), ("is_shielded", [1]), ("skill_ready", [1]), ("element", [1]),
+   ("is_valid", [1]), ("is_alive", [1]), ("is_character", [1]), ("is_enemy", [1]), ("enemies", []), ("characters", []),
+   ("adjacent_to", [1])]
+
+/-- result of a condition builtin: a value, or a list of unit ids that becomes a fresh map -/
+inductive CondOut (α : Type)
+  | val (v : Val α)
+  | ids (l : List Int)
+
 def typeName : Val α → String
   | .null => "null" | .int _ => "number" | .flt _ => "number" | .str _ => "string" | .fn .. => "function"
   | .bif _ => "built-in function" | .act .. => "action" | .map _ => "map"
@@ -185,6 +236,51 @@ def typeCode : Val α → Nat
 def insertBy (less : Val α → Val α → Bool) (x : Val α) : List (Val α) → List (Val α)
   | [] => [x]
   | y :: r => if less x y then x :: y :: r else y :: insertBy less x r
+
+/-- the unit id a number argument denotes: `number.ival`, which is 0 for a floating value -/
+def targetOf : Val α → Int
+  | .int i => i
+  | _ => 0
+
+/-- conditions.go, one clause per builtin, on already type-checked arguments -/
+def condEval (w : World α) (name : String) (args : List (Val α)) : Except String (CondOut α) :=
+  let t := targetOf (args.headD .null)
+  let bv (b : Bool) : Except String (CondOut α) := .ok (.val (.int (if b then 1 else 0)))
+  let needValid (k : WUnit α → Except String (CondOut α)) : Except String (CondOut α) :=
+    match w.unit? t with | some u => k u | none => .error "target is invalid"
+  let needEnemy (k : WUnit α → Except String (CondOut α)) : Except String (CondOut α) :=
+    match w.unit? t with | some u => if u.cls == 1 then k u else .error "target is not an enemy" | none => .error "target is not an enemy"
+  let needChar (k : WUnit α → Except String (CondOut α)) : Except String (CondOut α) :=
+    match w.unit? t with | some u => if u.cls == 0 then k u else .error "target is not a character" | none => .error "target is not a character"
+  if name == "has_modifier" then
+    needValid fun u => match args with | [_, .str m] => bv (u.mods.contains m) | _ => .error "args"
+  else if name == "modifier_count" then
+    needValid fun u => .ok (.val (.int (((u.status.find? (·.1 == targetOf (args.getD 1 .null))).map (·.2)).getD 0)))
+  else if name == "ult_ready" then needChar fun u => bv (decide ((1 : α) ≤ u.energy / u.maxEnergy))
+  else if name == "skill_points" then .ok (.val (.int w.sp))
+  else if name == "energy" then needValid fun u => .ok (.val (.flt u.energy))
+  else if name == "max_energy" then needValid fun u => .ok (.val (.flt u.maxEnergy))
+  else if name == "hp_ratio" then needValid fun u => .ok (.val (.flt u.hp))
+  else if name == "weakness_broken" then needEnemy fun u => bv (Num.eqb u.stance 0)
+  else if name == "has_weakness" then needEnemy fun u => bv (u.weak.contains (targetOf (args.getD 1 .null)))
+  else if name == "stance" then needEnemy fun u => .ok (.val (.flt u.stance))
+  else if name == "max_stance" then needEnemy fun u => .ok (.val (.flt u.maxStance))
+  else if name == "has_shield" then
+    needValid fun u => match args with | [_, .str k] => bv (u.shields.contains k) | _ => .error "args"
+  else if name == "is_shielded" then needValid fun u => bv u.shielded
+  else if name == "skill_ready" then
+    match w.unit? t with
+    | some u => if u.skill == 2 then .error "engine error" else bv (u.skill == 1)
+    | none => .error "engine error"
+  else if name == "element" then needChar fun u => .ok (.val (.int u.elem))
+  else if name == "is_valid" then bv (w.isValid t)
+  else if name == "is_alive" then needValid fun u => bv u.alive
+  else if name == "is_character" then bv (w.isChar t)
+  else if name == "is_enemy" then bv (w.isEnemy t)
+  else if name == "enemies" then .ok (.ids (w.ofClass 1))
+  else if name == "characters" then .ok (.ids (w.ofClass 0))
+  else if name == "adjacent_to" then needValid fun u => .ok (.ids u.adj)
+  else .error "unknown builtin"
 
 section eval
 variable (mkF : Nat → Nat → α)
@@ -384,7 +480,17 @@ def callBuiltin : Nat → St α → Nat → String → List Expr → Res α (Val
       | .ok _ sx => .err "action" sx
       | .err m se => .err m se
       | .fuel => .fuel
-    else .err "unknown builtin" s
+    else match condBuiltins.find? (·.1 == name) with
+      | none => .err "unknown builtin" s
+      | some (_, types) =>
+        match evalTyped f s env args types with
+        | .ok vs s1 =>
+          match condEval s1.world name vs with
+          | .ok (.val v) => .ok v s1
+          | .ok (.ids l) => .ok (.map s1.maps.size) { s1 with maps := s1.maps.push (l.map Val.int, []) }
+          | .error m => .err m s1
+        | .err m se => .err m se
+        | .fuel => .fuel
 
 /-- `any`: the first element for which the callback returns a truthy value -/
 def anyLoop : Nat → St α → Nat → List Nat → List Node → List (Val α) → Res α (Val α)
@@ -571,9 +677,16 @@ end
 end eval
 
 /-- the global environment after `Init`: builtins and the target-evaluator constants -/
-def initSt (draws : List α) : St α :=
-  let g : Frame α := ⟨none, (builtins.map fun b => (txt b, Val.bif b)) ++
-    [(txt "First", .int 100), (txt "LowestHP", .int 101), (txt "LowestHPRatio", .int 102)]⟩
-  { frames := #[g], draws := draws }
+def initSt (draws : List α) (w : World α := {}) : St α :=
+  -- `Init` in its order: system functions and evaluator constants, actions, condition builtins,
+  -- enumeration constants, character names; a later registration of a name replaces an earlier one
+  let regs : List (List Nat × Val α) := (builtins.map fun b => (txt b, Val.bif b)) ++
+    [(txt "First", .int 100), (txt "LowestHP", .int 101), (txt "LowestHPRatio", .int 102)] ++
+    (condBuiltins.map fun b => (txt b.1, Val.bif b.1)) ++
+    (enumTable.map fun e => (txt e.1, Val.int e.2)) ++
+    ((w.units.filter (·.cls == 0)).map fun u => (u.key, Val.int u.id))
+  let vars := regs.foldl (fun acc kv => if acc.any (·.1 == kv.1) then acc.map (fun x => if x.1 == kv.1 then kv else x) else acc ++ [kv]) []
+  let g : Frame α := ⟨none, vars⟩
+  { frames := #[g], draws := draws, world := w }
 
 end Gcs.Eval
